@@ -57,6 +57,8 @@ StubPDFRatio(cfg, R, dR=None, param_names=None, bkg_param_names=None)
                                                 cache — the values are computed once per trial (initialize_for_new_trial, or
                                                 lazily) and get_ratio returns *that stored array object itself* (no copy), so a
                                                 consumer that writes into its input corrupts later evaluations.
+                                                share='strided': the stored array is a non-contiguous view into a larger buffer;
+                                                share='readonly': it is flagged read-only (an in-place write raises).
                                                 ``.snapshot()`` -> bytes of every array the stub owns (tables + stored values).
                                                 ``.set_table(R, dR=None)`` -> new prescribed tables for the next trial (new event
                                                 data on the same object; also on StubSigPDF / StubBkgPDF: ``.set_table(table)``).
@@ -309,6 +311,18 @@ def _stub_classes():
                 return (selected, pair, selected_idxs)
             return (selected, pair)
 
+    def _layout(arr, share):
+        """the stored array in the memory layout asked for: True -> plain; 'strided' -> a non-contiguous view into a
+        larger buffer; 'readonly' -> flagged read-only (any in-place write by a consumer raises)"""
+        arr = np.array(arr, dtype=np.float64)
+        if share == 'strided':
+            buf = np.full((2 * len(arr) + 1,), np.nan)
+            buf[1::2] = arr
+            arr = buf[1::2]
+        elif share == 'readonly':
+            arr.setflags(write=False)
+        return arr
+
     def _params_dict(rec):
         out = {}
         if rec is None:
@@ -331,7 +345,7 @@ def _stub_classes():
                              cfg=cfg)
             self.R = R
             self.dR = dR
-            self.share = bool(share)
+            self.share = share if share in ('strided', 'readonly') else bool(share)
             self._stored = None
             self.n_calls = collections.Counter()
 
@@ -339,7 +353,7 @@ def _stub_classes():
             self.n_calls['initialize_for_new_trial'] += 1
             self._stored = None
             if self.share and not callable(self.R):
-                self._stored = np.array(self._take(_val(self.R, {}), tdm), dtype=np.float64)
+                self._stored = _layout(self._take(_val(self.R, {}), tdm), self.share)
 
         def set_table(self, R, dR=None):
             """new event data (next trial): replace the prescribed tables; stored values are dropped"""
@@ -364,7 +378,7 @@ def _stub_classes():
             self.n_calls['get_ratio'] += 1
             if self.share and not callable(self.R):
                 if self._stored is None or len(self._stored) != tdm.get_n_values():
-                    self._stored = np.array(self._take(_val(self.R, {}), tdm), dtype=np.float64)
+                    self._stored = _layout(self._take(_val(self.R, {}), tdm), self.share)
                 return self._stored
             table = _val(self.R, _params_dict(src_params_recarray))
             return np.array(self._take(table, tdm), dtype=np.float64)
@@ -394,7 +408,7 @@ def _stub_classes():
         def _init(self, cfg, table, share):
             super().__init__(pmm=None, param_set=None, cfg=cfg)
             self.table = np.asarray(table, dtype=np.float64)
-            self.share = bool(share)
+            self.share = share if share in ('strided', 'readonly') else bool(share)
             self._stored = None
 
         def assert_is_valid_for_trial_data(self, tdm, tl=None, **kwargs):
@@ -419,7 +433,7 @@ def _stub_classes():
             if not self.share:
                 return (np.array(self._values(tdm), dtype=np.float64), dict())
             if self._stored is None or len(self._stored) != self._n(tdm):
-                self._stored = np.array(self._values(tdm), dtype=np.float64)
+                self._stored = _layout(self._values(tdm), self.share)
             return (self._stored, dict())
 
     class StubSigPDF(_StubPDFBase, IsSignalPDF):
